@@ -397,11 +397,12 @@ impl<T: SizedNode, L: LenNode> Node for FlatVec<T, L> {
                 _ => vec::FromIterator(items.iter().map(T::from_value)).emplace_unchecked(bytes),
             },
             Kind::Grow => {
-                // a well-behaved user emplacer: find out whether it fits before touching anything
-                if Self::from_mut_bytes_unchecked(bytes).capacity() < items.len() {
+                // a user-written emplacer: like the library's own ones it first makes the target a valid
+                // (empty) vector, so that a failure never leaves stale bytes behind a new tag
+                let this = <vec::Empty as Emplacer<Self>>::emplace_unchecked(vec::Empty, bytes)?;
+                if this.capacity() < items.len() {
                     return Err(Error { kind: ErrorKind::InsufficientSize, pos: 0 });
                 }
-                let this = <vec::Empty as Emplacer<Self>>::emplace_unchecked(vec::Empty, bytes)?;
                 for it in items {
                     if this.push(T::from_value(it)).is_err() {
                         return Err(Error { kind: ErrorKind::InsufficientSize, pos: 0 });
@@ -510,10 +511,10 @@ impl<L: LenNode> Node for FlatString<L> {
         match kind {
             Kind::Iter | Kind::Literal => string::FromStr(s).emplace_unchecked(bytes),
             Kind::Grow => {
-                if Self::from_mut_bytes_unchecked(bytes).capacity() < s.len() {
+                let this = <string::Empty as Emplacer<Self>>::emplace_unchecked(string::Empty, bytes)?;
+                if this.capacity() < s.len() {
                     return Err(Error { kind: ErrorKind::InsufficientSize, pos: 0 });
                 }
-                let this = <string::Empty as Emplacer<Self>>::emplace_unchecked(string::Empty, bytes)?;
                 for c in s.chars() {
                     if this.push(c).is_err() {
                         return Err(Error { kind: ErrorKind::InsufficientSize, pos: 0 });
